@@ -90,6 +90,22 @@ class Mirror:
                 out.append(([k] + p, l))
         return out
 
+    def models(self, o, cls, izd):
+        """models_with_type(cls, include_zero_dimension=izd): Models found with ignore_children=False"""
+        out = []
+
+        def rec(v):
+            if v[0] != "r":
+                return
+            ob = self.objs[v[1]]
+            if ob.kind == "model":
+                out.append(v[1])
+            for _, cv in ob.attrs:
+                rec(cv)
+        rec(["r", o])
+        return [[[], ["r", c]] for c in out
+                if (cls is None or self.objs[c].cls == cls) and (izd or self.count(c) > 0)]
+
     def unique(self, o):
         d = {}
         for p, l in self.walk(["r", o], "prior"):
@@ -204,6 +220,8 @@ class Mirror:
                 return {"ok": self.instance(o, q[1])}
             if k == "info":
                 return {"ok": self.info(o)}
+            if k == "models":
+                return {"ok": self.models(o, q[1], q[2])}
         except Mirror.Raise as e:
             return {"exc": str(e)}
         raise ValueError(q)
@@ -392,7 +410,9 @@ class Gen:
         return vec
 
     def query(self, o):
-        k = self.rng.choice(["count", "count", "paths", "ordered", "instance", "instance", "info"])
+        k = self.rng.choice(["count", "count", "paths", "ordered", "instance", "instance", "info", "models"])
+        if k == "models":
+            return ["query", o, [k, self.rng.choice([None, None, 0, 1, 2, 3]), self.rng.random() < 0.4]]
         return ["query", o, [k, self.vector(o)] if k == "instance" else [k]]
 
     def allowed_mod(self, t):
@@ -504,7 +524,8 @@ def scenario_cases():
     pri = [[p, 0, 10] for p in range(NPRIORS)]
     base = lambda ops: {"classes": CLASSES, "priors": pri, "ops": ops}
     leafm = lambda a, b: ["new", "model", 0, [["a", P(a)], ["b", P(b)]], 0]
-    qs = lambda o: [["query", o, ["count"]], ["query", o, ["paths"]], ["query", o, ["ordered"]], ["query", o, ["info"]]]
+    qs = lambda o: [["query", o, ["count"]], ["query", o, ["paths"]], ["query", o, ["ordered"]], ["query", o, ["info"]],
+                    ["query", o, ["models", None, False]], ["query", o, ["models", 0, True]]]
     out = []
     # freeze / query / unfreeze / modify / query
     out.append(base([leafm(0, 1), ["new", "coll", None, [["m", ["r", 0]], ["k", ["c", 3]]], 0], ["freeze", 1]] + qs(1) +
@@ -732,7 +753,7 @@ def coutcome(op, r):
     a, k = r["ok"], op[2][0]
     if k == "count":
         return "Ok (ANat %d)" % a
-    if k in ("paths", "ordered"):
+    if k in ("paths", "ordered", "models"):
         return "Ok (AItems %s)" % citems(a)
     if k == "instance":
         return "Ok (AInst (%s))" % cinst(a)
@@ -751,6 +772,8 @@ def cop(op):
         qq = {"count": "QCount", "paths": "QPaths", "ordered": "QOrdered", "info": "QInfo"}.get(q[0])
         if q[0] == "instance":
             qq = "(QInstance %s)" % clist(["(%d)%%Z" % x for x in q[1]])
+        if q[0] == "models":
+            qq = "(QModels %s %s)" % ("None" if q[1] is None else "(Some %d)" % q[1], "true" if q[2] else "false")
         return "OQuery %d %s" % (op[1], qq)
     if k == "freeze":
         return "OFreeze %d" % op[1]
@@ -789,7 +812,7 @@ Open Scope string_scope. Open Scope list_scope."""
 # ---------------------------------------------------------------------------
 def run(ctx):
     ctx.rule = ("a case is an operation history (new / query[count, paths, ordered ids, instance for a vector, info] / freeze / "
-                "unfreeze / setattr / append / delattr / deepcopy / failing walk call) over a heap of Model, Collection and TuplePrior "
+                "unfreeze / setattr / setitem / append / delattr / deepcopy / failing walk call; queries also models_with_type) over a heap of Model, Collection and TuplePrior "
                 "objects with shared children and several roots; 'clean' histories never modify anything below a frozen object and "
                 "contain no failing walk call, 'dirty' ones do both; a case is non-trivial when some query comes after a freeze and "
                 "after a later set/append/del/unfreeze/copy/failing call; distinct = distinct abstract history")
